@@ -17,7 +17,7 @@ ROOT = os.path.dirname(os.path.dirname(os.path.dirname(os.path.abspath(__file__)
 def _check(prop):
     d = os.path.join(scratch_dir(), "poisoned-" + prop)
     os.makedirs(d, exist_ok=True)
-    env = dict(os.environ, PRAATIO_SRC=SRC, VERIF_EVIDENCE_DIR=d, VERIF_REPLAY_DIR=d, VERIF_CHILD="1", VERIF_PRELUDE="1", VERIF_IN_HANDLER="1", VERIF_INPUT_STRIDE="23",
+    env = dict(os.environ, PRAATIO_SRC=SRC, VERIF_EVIDENCE_DIR=d, VERIF_REPLAY_DIR=d, VERIF_CHILD="1", VERIF_LOGGING="debug", VERIF_PRELUDE="1", VERIF_IN_HANDLER="1", VERIF_INPUT_STRIDE="23",
                VERIF_INPUT_DENSE="400", VERIF_BFS_DEPTH_CAP="1", PYTHONDONTWRITEBYTECODE="1", PYTHONHASHSEED="2")
     p = subprocess.run([sys.executable, "-B", "-m", "mc.run", prop, "quick"], cwd=ROOT, env=env, stdout=subprocess.PIPE, stderr=subprocess.PIPE,
                        text=True, timeout=1500)
